@@ -43,6 +43,13 @@ syntactic, on resolved facts (reaching definitions, dominance):
     ``indent_to``.  (Every ``ReflowPoint(...)`` construction in scope is itself
     checked to receive only whitespace-like segments.)
   * ``context.segment`` of a rule whose ``SegmentSeekerCrawler`` type set is whitespace.
+
+Tests are read through boolean locals that hold them (one definition, nothing read re-bound since);
+a lone ``(get_consumed_whitespace(x) or "").isspace()`` arm is whitespace evidence like the ``or``
+of the two; R14c accepts the comment test in a local, ``block is not None`` for ``block``, and the
+result tuple through a local; the computed-kind proof follows the anchor binding met *after* the
+store of "replace" (the two stores in either order); a re-creating fix built into a local counts
+where that local is handed to the result list.
 """
 
 from __future__ import annotations
@@ -51,6 +58,7 @@ import ast
 from typing import Dict, List, Optional, Tuple
 
 from ..cfg import atoms, cfg_of, origins
+from ..idioms import atoms_at, branch_atoms, conditions_at
 from ..index import (
     AnalysisError,
     FuncNode,
@@ -168,7 +176,8 @@ class Prover:
             cfg = cfg_of(func)
             for g in cfg.guards(at):
                 if isinstance(g.stmt, (ast.If, ast.While)):
-                    out += [(e, pol, g) for e, pol in atoms(g.stmt.test, g.polarity)]
+                    # a test held in a boolean local (one definition, nothing it reads re-bound since) reads as the test itself
+                    out += [(e, pol, g) for e, pol in atoms_at(cfg, g.stmt.test, g.polarity, g.stmt)]
         # inside the statement: boolean operators, conditional expressions, comprehension filters
         p = node
         while p is not None and p is not at:
@@ -226,6 +235,8 @@ class Prover:
                     return "WS", short(atom, 70)
                 if atom.attr in ("is_code", "is_comment") and pol:
                     verdict = ("NONWS", short(atom, 70))
+            elif pol and isinstance(atom, ast.Call) and isinstance(atom.func, ast.Attribute) and atom.func.attr == "isspace" and self._ws_evidence(func, atom, text, at) and self._same_binding(func, names, g, at):
+                return "WS", short(atom, 70)
             elif isinstance(atom, ast.BoolOp) and isinstance(atom.op, ast.Or) and pol and self._same_binding(func, names, g, at):
                 # every alternative is whitespace evidence for the same expression
                 if all(self._ws_evidence(func, v, text, at) for v in atom.values):
@@ -706,45 +717,70 @@ def _dynamic_replace_unsafe(cfg, call: ast.Call, kind: ast.Name, at) -> Optional
     anchor_defs = assigns(anchor.id)
     # an assignment whose value mentions the kind variable itself passes the old value on: it does not overwrite it
     killers = [k_ for k_ in kind_defs if not any(isinstance(x, ast.Name) and x.id == kind.id for x in ast.walk(getattr(k_, "value", None) or ast.Pass()))]
+
+    def ws_tested(stmt):
+        """Expressions known (by a dominating positive ``X.is_type(<whitespace types>)``, also through a
+        boolean local) to be whitespace at ``stmt``; a test on the anchor variable itself counts for the
+        values the variable holds at ``stmt`` provided it was not re-bound since the test."""
+        out = set()
+        for g in cfg.guards(stmt):
+            for e, pol in branch_atoms(cfg, g):
+                if pol and isinstance(e, ast.Call) and last_attr(e) == "is_type" and isinstance(e.func, ast.Attribute) and e.args:
+                    ts = {a.value for a in e.args if isinstance(a, ast.Constant)}
+                    if len(ts) == len(e.args) and ts <= WS_TYPES:
+                        x = norm(e.func.value)
+                        if x == anchor.id:
+                            if rd.defs_at(g.stmt, anchor.id) == rd.defs_at(stmt, anchor.id):
+                                out |= {norm(a.value) for a in rd.defs_at(stmt, anchor.id) if getattr(a, "kind", None) == "assign" and a.value is not None and not a.path}
+                        else:
+                            out.add(x)
+        return out
+
+    def plain_value(node):
+        """``V`` when ``node`` is exactly ``anchor = V``."""
+        if isinstance(node, ast.Assign) and len(node.targets) == 1 and isinstance(node.targets[0], ast.Name) and node.targets[0].id == anchor.id:
+            return node.value
+        if isinstance(node, ast.AnnAssign) and isinstance(node.target, ast.Name) and node.target.id == anchor.id and node.value is not None:
+            return node.value
+        return None
+
     for d in kind_defs:
         if not (isinstance(d, ast.Assign) and isinstance(d.value, ast.Constant) and d.value.value == "replace"):
             continue
-        # (i) + (ii)
-        ws_exprs = []
-        for e, pol in cfg.conditions(d):
-            if pol and isinstance(e, ast.Call) and last_attr(e) == "is_type" and isinstance(e.func, ast.Attribute) and e.args:
-                ts = {a.value for a in e.args if isinstance(a, ast.Constant)}
-                if len(ts) == len(e.args) and ts <= WS_TYPES:
-                    ws_exprs.append(norm(e.func.value))
-        if anchor.id in ws_exprs:
-            # the test is on the anchor variable itself: (ii) holds if it is not re-bound between test and d
-            ws_exprs = [x for x in ws_exprs if x != anchor.id] + sorted({norm(a.value) for a in rd.defs_at(d, anchor.id) if getattr(a, "kind", None) == "assign" and a.value is not None and not a.path})
+        # (i): the store of "replace" is under a whitespace test at all
+        ws_exprs = ws_tested(d)
         if not ws_exprs:
             return f"`{kind.id} = 'replace'` is not under a test that the segment to replace is whitespace"
-        ads = rd.defs_at(d, anchor.id)
-        bound = {norm(a.value) for a in ads if getattr(a, "kind", None) == "assign" and a.value is not None and not a.path}
-        if len(ads) != len(bound) or not bound or not bound <= set(ws_exprs):
-            return f"where `{kind.id} = 'replace'` is set, `{anchor.id}` is not (only) the segment that was tested to be whitespace ({sorted(ws_exprs)})"
-        # (iii) forward from d; stop at other definitions of the kind; remember whether the anchor was re-bound
+        # (ii) + (iii) forward from d; stop at other definitions of the kind; remember the last binding of
+        # the anchor met on the way (None: the bindings in force at d)
         st = cfg.stmt_of(call)
         seen = set()
-        stack = [(d, False)]
+        stack = [(d, None)]
         while stack:
-            node, dirty = stack.pop()
+            node, last = stack.pop()
             for m_ in cfg.succ.get(node, ()):
                 if m_ is not d and m_ in killers:
                     continue  # the value of d is overwritten here
-                nd = dirty or (m_ in anchor_defs)
+                nl = m_ if m_ in anchor_defs else last
                 if m_ is st:
-                    if nd:
-                        return (
-                            f"the value 'replace' assigned to `{kind.id}` can still be in force when `{anchor.id}` has been re-bound "
-                            "(it is not reset before the next anchor is chosen, e.g. in the next loop iteration)"
-                        )
-                if (id(m_), nd) in seen:
+                    if nl is None:
+                        ads = rd.defs_at(d, anchor.id)
+                        bound = {norm(a.value) for a in ads if getattr(a, "kind", None) == "assign" and a.value is not None and not a.path}
+                        if len(ads) != len(bound) or not bound or not bound <= ws_exprs:
+                            return f"where `{kind.id} = 'replace'` is set, `{anchor.id}` is not (only) the segment that was tested to be whitespace ({sorted(ws_exprs)})"
+                    else:
+                        # the anchor was (re-)bound after the store: fine only when that binding itself is
+                        # `anchor = X` under a test that X is whitespace (the two stores written in the other order)
+                        v = plain_value(nl)
+                        if v is None or norm(v) not in ws_tested(nl) - {anchor.id}:
+                            return (
+                                f"the value 'replace' assigned to `{kind.id}` can still be in force when `{anchor.id}` has been re-bound "
+                                "(it is not reset before the next anchor is chosen, e.g. in the next loop iteration)"
+                            )
+                if (id(m_), id(nl)) in seen:
                     continue
-                seen.add((id(m_), nd))
-                stack.append((m_, nd))
+                seen.add((id(m_), id(nl)))
+                stack.append((m_, nl))
     return None
 
 
@@ -810,6 +846,23 @@ def _sink_name(st: ast.stmt) -> Optional[str]:
     return None
 
 
+def _handed_over(st: ast.stmt, name: ast.Name) -> bool:
+    """Is ``name`` itself an element added to the sink of ``st`` (``s.append(x)``, ``s += [x]``,
+    ``s.extend([.., x])``, ``s = [.., x, ..]``, ``s = s + [x]``) -- not merely mentioned in it?"""
+    par = getattr(name, "_parent", None)
+    if isinstance(par, ast.Call) and par is getattr(st, "value", None) and isinstance(par.func, ast.Attribute) and par.func.attr == "append" and par.args and par.args[0] is name:
+        return True
+    if isinstance(par, (ast.List, ast.Tuple)) and any(x is name for x in par.elts):
+        gp = getattr(par, "_parent", None)
+        while isinstance(gp, ast.BinOp) and isinstance(gp.op, ast.Add):
+            gp = getattr(gp, "_parent", None)
+        if gp is st and isinstance(st, (ast.Assign, ast.AnnAssign, ast.AugAssign)):
+            return True
+        if isinstance(gp, ast.Call) and gp is getattr(st, "value", None) and isinstance(gp.func, ast.Attribute) and gp.func.attr == "extend":
+            return True
+    return False
+
+
 def _chain(st: ast.AST, func) -> List[ast.AST]:
     out = [st]
     p = getattr(st, "_parent", None)
@@ -853,6 +906,19 @@ def move_proof(func, cfg, delete_call: ast.Call, recv: ast.AST) -> Optional[str]
             cst = cfg.stmt_of(c)
             if ed is not None and cst is not None and _mentions(func, ed, text, cst):
                 cands.append((c, cst))
+                # ``fx = LintFix.create_*(..)`` ... ``fixes.append(fx)``: the statement that hands the local
+                # (still holding exactly this fix) to a result list is where the fix is added
+                if isinstance(cst, ast.Assign) and cst.value is c and len(cst.targets) == 1 and isinstance(cst.targets[0], ast.Name):
+                    held = cst.targets[0].id
+                    rd = cfg.reaching()
+                    for u in walk_local(func):
+                        if isinstance(u, ast.Name) and isinstance(u.ctx, ast.Load) and u.id == held:
+                            ust = cfg.stmt_of(u)
+                            if ust is None or ust is cst or _sink_name(ust) in (None, held):
+                                continue
+                            ds = rd.defs_at(ust, held)
+                            if ds and all(d_.stmt is cst for d_ in ds) and _handed_over(ust, u):
+                                cands.append((c, ust))
     if not cands:
         return None
     sink = _sink_name(dst)
@@ -935,10 +1001,17 @@ def _r14c(chk, repo) -> None:
     f = repo.fn("src/sqlfluff/utils/reflow/respace.py", "determine_constraints")
     cfg = cfg_of(f)
     params = {a.arg for a in f.args.args}
-    rets = [r for r in walk_local(f) if isinstance(r, ast.Return) and isinstance(r.value, ast.Tuple) and len(r.value.elts) == 3]
-    if not rets or not all(isinstance(r.value.elts[2], ast.Name) for r in rets):
+    def _ret_tuple(r):
+        v = r.value
+        if isinstance(v, ast.Name):  # the result tuple held in a local
+            os_ = origins(cfg, v, r)
+            v = os_[0].expr if len(os_) == 1 and os_[0].kind == "expr" and not os_[0].path else None
+        return v if isinstance(v, ast.Tuple) and len(v.elts) == 3 else None
+
+    rets = [t for t in (_ret_tuple(r) for r in walk_local(f) if isinstance(r, ast.Return)) if t is not None]
+    if not rets or not all(isinstance(t.elts[2], ast.Name) for t in rets):
         raise AnalysisError("determine_constraints: (pre, post, strip_newlines) return not found")
-    flag = rets[0].value.elts[2].id
+    flag = rets[0].elts[2].id
 
     def is_comment_test(e) -> bool:
         return any(
@@ -947,10 +1020,18 @@ def _r14c(chk, repo) -> None:
 
     stores = [n for n in walk_local(f) if isinstance(n, ast.Assign) and any(isinstance(t, ast.Name) and t.id == flag for t in n.targets)
               and isinstance(n.value, ast.Constant) and n.value.value is False]
+    def is_presence_test(e, pol) -> bool:
+        """``block`` true / ``block is not None`` true / ``block is None`` false, for a parameter."""
+        if isinstance(e, ast.Name):
+            return pol and e.id in params
+        if isinstance(e, ast.Compare) and len(e.ops) == 1 and isinstance(e.left, ast.Name) and e.left.id in params and isinstance(e.comparators[0], ast.Constant) and e.comparators[0].value is None:
+            return (isinstance(e.ops[0], ast.IsNot) and pol) or (isinstance(e.ops[0], ast.Is) and not pol)
+        return False
+
     guarded = []
     for st in stores:
         ifs = [g for g in cfg.guards(st) if isinstance(g.stmt, ast.If)]
-        if any(g.polarity and is_comment_test(g.stmt.test) for g in ifs):
+        if any(pol and is_comment_test(e) for g in ifs for e, pol in branch_atoms(cfg, g)):
             guarded.append((st, ifs))
     chk.count("R14c.comment_guards", len(guarded))
     if not chk.require(bool(guarded), "R14c", f, "determine_constraints no longer switches newline stripping off next to a comment: a stripped newline glues code onto a `--` comment",
@@ -959,10 +1040,10 @@ def _r14c(chk, repo) -> None:
     for st, ifs in guarded:
         extra = []
         for g in ifs:
-            if is_comment_test(g.stmt.test):
+            ats = branch_atoms(cfg, g)
+            if any(is_comment_test(e) for e, _ in ats):
                 continue  # the comment test itself, or the false arm of a sibling comment test (if/elif)
-            ats = atoms(g.stmt.test, g.polarity)
-            if ats and all(pol and isinstance(e, ast.Name) and e.id in params for e, pol in ats):
+            if ats and all(is_presence_test(e, pol) for e, pol in ats):
                 continue  # `if prev_block and next_block:` -- needed to look at their segments at all
             extra.append(short(g.stmt.test, 60) + ("" if g.polarity else " (false)"))
         chk.require(
@@ -1206,6 +1287,182 @@ VARIANTS: List[Variant] = [
         "        if any(seg.is_type(\"comment\") for seg in prev_block.segments) or any(\n            seg.is_type(\"comment\") for seg in next_block.segments\n        ):\n            strip_newlines = False\n",
         "        if any(seg.is_type(\"comment\") for seg in prev_block.segments):\n            strip_newlines = False\n        elif any(seg.is_type(\"comment\") for seg in next_block.segments):\n            strip_newlines = False\n",
         "QUIET", None, "disjunction spelled as if/elif",
+    ),
+    # behaviour-preserving refactors: must stay quiet
+    Variant(
+        "quiet-respace-comment-test-in-boolean-local", RF + "respace.py",
+        "        if any(seg.is_type(\"comment\") for seg in prev_block.segments) or any(\n            seg.is_type(\"comment\") for seg in next_block.segments\n        ):\n            strip_newlines = False\n",
+        "        next_to_comment = any(seg.is_type(\"comment\") for seg in prev_block.segments) or any(\n            seg.is_type(\"comment\") for seg in next_block.segments\n        )\n        if next_to_comment:\n            strip_newlines = False\n",
+        "QUIET", None, "comment test held in a boolean local",
+    ),
+    Variant(
+        "quiet-respace-blocks-tested-against-none", RF + "respace.py",
+        "    within_spacing = \"\"\n    if prev_block and next_block:\n",
+        "    within_spacing = \"\"\n    if prev_block is not None and next_block is not None:\n",
+        "QUIET", None, "ReflowBlock defines neither __bool__ nor __len__: `is not None` is the same test",
+    ),
+    Variant(
+        "quiet-respace-result-through-local", RF + "respace.py",
+        "    return pre_constraint, post_constraint, strip_newlines\n",
+        "    constraints = (pre_constraint, post_constraint, strip_newlines)\n    return constraints\n",
+        "QUIET", None, "result tuple through a local",
+    ),
+    Variant(
+        "quiet-respace-comment-guard-nested-ifs", RF + "respace.py",
+        "        if any(seg.is_type(\"comment\") for seg in prev_block.segments) or any(\n            seg.is_type(\"comment\") for seg in next_block.segments\n        ):\n            strip_newlines = False\n",
+        "        if not any(seg.is_type(\"comment\") for seg in prev_block.segments):\n            if any(seg.is_type(\"comment\") for seg in next_block.segments):\n                strip_newlines = False\n        else:\n            strip_newlines = False\n",
+        "QUIET", None, "disjunction spelled as nested ifs",
+    ),
+    Variant(
+        "quiet-lt06-all-test-in-boolean-local", LT + "LT06.py",
+        "            if intermediate_segments.all(sp.is_type(\"whitespace\", \"newline\")):\n",
+        "            only_spacing = intermediate_segments.all(sp.is_type(\"whitespace\", \"newline\"))\n            if only_spacing:\n",
+        "QUIET", None, "whitespace-only test held in a boolean local",
+    ),
+    Variant(
+        "quiet-lt06-fixes-built-by-loop", LT + "LT06.py",
+        "                return LintResult(\n                    anchor=intermediate_segments[0],\n                    fixes=[LintFix.delete(seg) for seg in intermediate_segments],\n                )\n",
+        "                fixes = []\n                for seg in intermediate_segments:\n                    fixes.append(LintFix.delete(seg))\n                return LintResult(\n                    anchor=intermediate_segments[0],\n                    fixes=fixes,\n                )\n",
+        "QUIET", None, "comprehension turned into a loop",
+    ),
+    Variant(
+        "quiet-lt06-early-returns", LT + "LT06.py",
+        "        if intermediate_segments:\n            # It's only safe to fix if there is only whitespace\n            # or newlines in the intervening section.\n            if intermediate_segments.all(sp.is_type(\"whitespace\", \"newline\")):\n                return LintResult(\n                    anchor=intermediate_segments[0],\n                    fixes=[LintFix.delete(seg) for seg in intermediate_segments],\n                )\n            else:\n                # It's not all whitespace, just report the error.\n                return LintResult(\n                    anchor=intermediate_segments[0],\n                )\n        return LintResult()\n",
+        "        if not intermediate_segments:\n            return LintResult()\n        if not intermediate_segments.all(sp.is_type(\"whitespace\", \"newline\")):\n            # It's not all whitespace, just report the error.\n            return LintResult(\n                anchor=intermediate_segments[0],\n            )\n        return LintResult(\n            anchor=intermediate_segments[0],\n            fixes=[LintFix.delete(seg) for seg in intermediate_segments],\n        )\n",
+        "QUIET", None, "nested ifs turned into early returns",
+    ),
+    Variant(
+        "quiet-lt09-newline-test-in-boolean-local", LT + "LT09.py",
+        "                if next_segment.is_type(\"newline\"):\n",
+        "                followed_by_newline = next_segment.is_type(\"newline\")\n                if followed_by_newline:\n",
+        "QUIET", None, "type test held in a boolean local",
+    ),
+    Variant(
+        "quiet-lt09-nested-delete-condition-merged", LT + "LT09.py",
+        "                        if delete_last_newline:\n                            fixes.append(LintFix.delete(next_segment))\n",
+        "                        if delete_last_newline and next_segment is not None:\n                            fixes.append(LintFix.delete(next_segment))\n",
+        "QUIET", None, "an always-true conjunct added to the inner test",
+    ),
+    Variant(
+        "quiet-lt08-whitespace-test-in-boolean-local", LT + "LT08.py",
+        "                    if forward_slice[comma_seg_idx + 1].is_type(\"whitespace\"):\n                        fix_type = \"replace\"\n",
+        "                    lands_on_whitespace = forward_slice[comma_seg_idx + 1].is_type(\"whitespace\")\n                    if lands_on_whitespace:\n                        fix_type = \"replace\"\n",
+        "QUIET", None, "whitespace test held in a boolean local",
+    ),
+    Variant(
+        "quiet-lt08-kind-set-before-anchor", LT + "LT08.py",
+        "                            fix_point = forward_slice[seg_idx - 1]\n                            fix_type = \"replace\"\n",
+        "                            fix_type = \"replace\"\n                            fix_point = forward_slice[seg_idx - 1]\n",
+        "QUIET", None, "two independent assignments reordered",
+    ),
+    Variant(
+        "quiet-lt08-fix-keyword-arguments", LT + "LT08.py",
+        "                LintFix(\n                    fix_type,\n                    fix_point,\n                    [NewlineSegment()] * num_newlines,\n                )\n",
+        "                LintFix(\n                    edit_type=fix_type,\n                    anchor=fix_point,\n                    edit=[NewlineSegment()] * num_newlines,\n                )\n",
+        "QUIET", None, "LintFix arguments by keyword",
+    ),
+    Variant(
+        "quiet-lt08-kind-local-renamed", LT + "LT08.py",
+        "fix_type",
+        "edit_kind",
+        "QUIET", None, "computed-kind local renamed everywhere", 4,
+    ),
+    Variant(
+        "quiet-lt15-crawler-types-positional", LT + "LT15.py",
+        "SegmentSeekerCrawler(types={\"newline\"}, provide_raw_stack=True)",
+        "SegmentSeekerCrawler({\"newline\"}, provide_raw_stack=True)",
+        "QUIET", None, "types passed positionally",
+    ),
+    Variant(
+        "quiet-lt15-delete-context-segment-directly", LT + "LT15.py",
+        "                fixes=[LintFix.delete(context_seg)],\n",
+        "                fixes=[LintFix.delete(context.segment)],\n",
+        "QUIET", None, "alias local bypassed",
+    ),
+    Variant(
+        "quiet-reindent-whitespace-deletes-by-loop", RF + "reindent.py",
+        "    fixes = [\n        # Remove the comment from it's current position, and any\n        # whitespace in the previous point.\n        LintFix.delete(comment_seg),\n        *[\n            LintFix.delete(ws)\n            for ws in line_buffer[-2].segments\n            if ws.is_type(\"whitespace\")\n        ],\n    ]\n",
+        "    fixes = [LintFix.delete(comment_seg)]\n    for ws in line_buffer[-2].segments:\n        if ws.is_type(\"whitespace\"):\n            fixes.append(LintFix.delete(ws))\n",
+        "QUIET", None, "starred comprehension turned into a loop",
+    ),
+    Variant(
+        "quiet-reindent-create-through-local", RF + "reindent.py",
+        "    fixes.append(\n        # NOTE: This looks a little convoluted, but we create\n        # *before* a block here rather than *after* a point,\n        # because the point may have been modified already by\n        # reflow code and may not be a reliable anchor.\n        LintFix.create_before(\n            anchor,\n            [\n                comment_seg,\n                *new_point.segments,\n            ],\n        )\n    )\n",
+        "    reinsert = LintFix.create_before(\n        anchor,\n        [\n            comment_seg,\n            *new_point.segments,\n        ],\n    )\n    fixes.append(reinsert)\n",
+        "QUIET", None, "the re-creating fix built into a local, then appended",
+    ),
+    Variant(
+        "quiet-reindent-moved-segments-through-local", RF + "reindent.py",
+        '    fixes.append(\n        # NOTE: This looks a little convoluted, but we create\n        # *before* a block here rather than *after* a point,\n        # because the point may have been modified already by\n        # reflow code and may not be a reliable anchor.\n        LintFix.create_before(\n            anchor,\n            [\n                comment_seg,\n                *new_point.segments,\n            ],\n        )\n    )\n',
+        '    moved_segments = [comment_seg, *new_point.segments]\n    fixes.append(\n        LintFix.create_before(anchor_segment=anchor, edit_segments=moved_segments)\n    )\n',
+        "QUIET", None, "re-created segments listed in a local; keyword arguments",
+    ),
+    Variant(
+        "quiet-process-spacing-nested-ifs", RF + "respace.py",
+        '            if strip_newlines and seg.is_type("newline"):\n                reflow_logger.debug("    Stripping newline: %s", seg)\n                removal_buffer.append(seg)\n                result_buffer.append(\n                    LintResult(\n                        seg, [LintFix.delete(seg)], description="Unexpected line break."\n                    )\n                )\n                # Carry on as though it wasn\'t here.\n                continue\n',
+        '            if strip_newlines:\n                if seg.is_type("newline"):\n                    reflow_logger.debug("    Stripping newline: %s", seg)\n                    removal_buffer.append(seg)\n                    stripped = LintFix.delete(seg)\n                    result_buffer.append(\n                        LintResult(seg, [stripped], description="Unexpected line break.")\n                    )\n                    # Carry on as though it wasn\'t here.\n                    continue\n',
+        "QUIET", None, "conjunction as nested ifs; the delete fix through a local",
+    ),
+    Variant(
+        "quiet-sequence-point-test-in-boolean-local", RF + "sequence.py",
+        "            if (\n                seg.is_type(\"whitespace\", \"newline\", \"indent\")\n                or (get_consumed_whitespace(seg) or \"\").isspace()\n            ):\n",
+        "            point_like = (\n                seg.is_type(\"whitespace\", \"newline\", \"indent\")\n                or (get_consumed_whitespace(seg) or \"\").isspace()\n            )\n            if point_like:\n",
+        "QUIET", None, "point-like test held in a boolean local",
+    ),
+    Variant(
+        "quiet-sequence-point-test-split-if-elif", RF + "sequence.py",
+        "            if (\n                seg.is_type(\"whitespace\", \"newline\", \"indent\")\n                or (get_consumed_whitespace(seg) or \"\").isspace()\n            ):\n                # Add to the buffer and move on.\n                seg_buff.append(seg)\n                continue\n            elif elem_buff or seg_buff:\n",
+        "            if seg.is_type(\"whitespace\", \"newline\", \"indent\"):\n                seg_buff.append(seg)\n                continue\n            elif (get_consumed_whitespace(seg) or \"\").isspace():\n                seg_buff.append(seg)\n                continue\n            elif elem_buff or seg_buff:\n",
+        "QUIET", None, "`or` split into if/elif with the same action",
+    ),
+    Variant(
+        "quiet-elements-edit-raw-by-keyword", RF + "elements.py",
+        "ws_seg.edit(desired_indent)",
+        "ws_seg.edit(raw=desired_indent)",
+        "QUIET", None, "raw passed by keyword",
+    ),
+    # breaking twins of the spellings accepted above
+    Variant(
+        "reindent-create-in-local-never-appended", RF + "reindent.py",
+        '    fixes.append(\n        # NOTE: This looks a little convoluted, but we create\n        # *before* a block here rather than *after* a point,\n        # because the point may have been modified already by\n        # reflow code and may not be a reliable anchor.\n        LintFix.create_before(\n            anchor,\n            [\n                comment_seg,\n                *new_point.segments,\n            ],\n        )\n    )\n',
+        '    reinsert = LintFix.create_before(\n        anchor,\n        [\n            comment_seg,\n            *new_point.segments,\n        ],\n    )\n    reflow_logger.debug("    Would re-insert: %s", reinsert)\n',
+        "R14b", "LintFix.delete(comment_seg)", "the re-creating fix is built but never added to the fix list",
+    ),
+    Variant(
+        "lt08-kind-set-before-anchor-of-other-segment", LT + "LT08.py",
+        "                            fix_point = forward_slice[seg_idx - 1]\n                            fix_type = \"replace\"\n",
+        "                            fix_type = \"replace\"\n                            fix_point = forward_slice[seg_idx]\n",
+        "R14b", "LT08", "the anchor bound after the store is not the segment that was tested",
+    ),
+    Variant(
+        "lt08-boolean-local-tests-another-segment", LT + "LT08.py",
+        "                    if forward_slice[comma_seg_idx + 1].is_type(\"whitespace\"):\n                        fix_type = \"replace\"\n",
+        "                    lands_on_whitespace = forward_slice[comma_seg_idx].is_type(\"whitespace\")\n                    if lands_on_whitespace:\n                        fix_type = \"replace\"\n",
+        "R14b", "LT08", "the local holds a test of a different segment",
+    ),
+    Variant(
+        "lt06-boolean-local-holds-another-test", LT + "LT06.py",
+        "            if intermediate_segments.all(sp.is_type(\"whitespace\", \"newline\")):\n",
+        "            only_spacing = intermediate_segments.all(sp.is_type(\"whitespace\", \"newline\", \"comment\"))\n            if only_spacing:\n",
+        "R14b", "Rule_LT06._eval", "comments between the name and the bracket would be deleted",
+    ),
+    Variant(
+        "sequence-second-arm-takes-comments", RF + "sequence.py",
+        "            if (\n                seg.is_type(\"whitespace\", \"newline\", \"indent\")\n                or (get_consumed_whitespace(seg) or \"\").isspace()\n            ):\n                # Add to the buffer and move on.\n                seg_buff.append(seg)\n                continue\n            elif elem_buff or seg_buff:\n",
+        "            if seg.is_type(\"whitespace\", \"newline\", \"indent\"):\n                seg_buff.append(seg)\n                continue\n            elif (get_consumed_whitespace(seg) or \"x\").isspace() or seg.is_comment:\n                seg_buff.append(seg)\n                continue\n            elif elem_buff or seg_buff:\n",
+        "R14a", "point segments", "breaking twin of the if/elif spelling",
+    ),
+    Variant(
+        "respace-comment-local-tested-with-parent-config", RF + "respace.py",
+        "        if any(seg.is_type(\"comment\") for seg in prev_block.segments) or any(\n            seg.is_type(\"comment\") for seg in next_block.segments\n        ):\n            strip_newlines = False\n",
+        "        next_to_comment = any(seg.is_type(\"comment\") for seg in prev_block.segments) or any(\n            seg.is_type(\"comment\") for seg in next_block.segments\n        )\n        if within_constraint:\n            if next_to_comment:\n                strip_newlines = False\n",
+        "R14c", "determine_constraints", "seeded C14-1 in the boolean-local spelling",
+    ),
+    Variant(
+        "respace-comment-guard-needs-a-non-presence-test", RF + "respace.py",
+        "    within_spacing = \"\"\n    if prev_block and next_block:\n",
+        "    within_spacing = \"\"\n    if prev_block is not None and next_block is not None and strip_newlines is not None:\n        pass\n    if prev_block and next_block and not strip_newlines:\n",
+        "R14c", "determine_constraints", "the whole block, comment guard included, is skipped when stripping was requested",
     ),
     Variant(
         "lt08-fix-kind-default-hoisted-out-of-the-loop", LT + "LT08.py",
